@@ -4,6 +4,7 @@ import (
 	"encoding/json"
 	"fmt"
 	"os"
+	"runtime/debug"
 	"testing"
 
 	"pgregory.net/rapid"
@@ -28,7 +29,10 @@ func dec[T any, PT interface {
 }
 
 var props = map[string]propDef{
+	"C01": {genC01, dec[CaseC01]()},
+	"C11": {genC11, dec[CaseC11]()},
 	"C05": {genC05, dec[CaseC05]()},
+	"C18": {genC18, dec[CaseC18]()},
 	"C10": {genC10, dec[CaseC10]()},
 	"C17": {genC17, dec[CaseC17]()},
 }
@@ -43,6 +47,8 @@ func TestHrsim(t *testing.T) {
 		os.Exit(2)
 	}
 	code := 2
+	curT = t
+	debug.SetMaxStack(64 << 20) // unbounded recursion kills the worker quickly instead of eating memory
 	func() {
 		defer func() {
 			if r := recover(); r != nil {
